@@ -1402,6 +1402,9 @@ func (s *Server) processDisconnect(cl *Client, pk packets.Packet) error {
 		}
 
 		cl.Properties.Props.SessionExpiryInterval = pk.Properties.SessionExpiryInterval
+		if cl.Properties.Props.SessionExpiryInterval > s.Options.Capabilities.MaximumSessionExpiryInterval {
+			cl.Properties.Props.SessionExpiryInterval = s.Options.Capabilities.MaximumSessionExpiryInterval
+		}
 		cl.Properties.Props.SessionExpiryIntervalFlag = true
 	}
 
